@@ -69,7 +69,7 @@ func c10(r *core.Run) {
 		}
 	}
 	// handshake cancellation
-	for k := 0; k < r.Pick(60, 600); k++ {
+	for k := 0; k < r.Pick(400, 4000); k++ {
 		ci++
 		if !r.Take(ci) {
 			continue
@@ -218,7 +218,7 @@ func c10Handshake(r *core.Run, ci int64, k int) {
 		}
 		return []simnet.Item{{Data: b[:cut]}} // partial hello, then silence
 	}
-	if k%7 == 3 {
+	if k%3 == 1 {
 		sim.Conn.BlockWritesAfter = int64(k % 5) // the peer does not even read the client hello
 	}
 	ctx, cancel := context.WithCancel(context.Background())
@@ -240,8 +240,8 @@ func c10Handshake(r *core.Run, ci int64, k int) {
 		client, err = ch.Connect(ctx, sim.Conn, ch.Options{ReadTimeout: 50 * time.Millisecond, HandshakeTimeout: 5 * time.Second})
 	})
 	r.Eval()
-	desc := map[string]any{"hello_bytes_before_silence": cut, "deadline": useDeadline, "peer_not_reading": k%7 == 3}
-	r.NonTrivial("handshake", cut, useDeadline, k%7 == 3)
+	desc := map[string]any{"hello_bytes_before_silence": cut, "deadline": useDeadline, "peer_not_reading": k%3 == 1}
+	r.NonTrivial("handshake", cut, useDeadline, k%3 == 1)
 	fail := func(class, msg string) {
 		r.Violation(class, fmt.Sprintf("%s [handshake, hello cut at %d, deadline=%v]", msg, cut, useDeadline), desc)
 	}
